@@ -282,6 +282,10 @@ epochLoop:
 				if err != nil {
 					return nil, fmt.Errorf("error while getting signature at index=%v: %w", txLoc, err)
 				}
+				if uint64(tx.Slot) >= before {
+					// newer than the requested range (`before` is exclusive): skip
+					continue
+				}
 				if tx.Slot < int(until) {
 					break epochLoop
 				}
